@@ -19,6 +19,7 @@ ASSUMPTIONS = ["window lengths against a real clock (Instant arithmetic, monoton
                "DuplicateCache::contains does not expire lazily-kept entries (expiry happens on the next insert): not part of the claim",
                "std HashMap / VecDeque / Vec semantics"]
 G = "libp2p_gossipsub"
+CONFIGS = [{"name": "gossipsub-features", "packages": ["libp2p-gossipsub"], "features": "metrics,partial-messages"}]
 TC = r"^libp2p_gossipsub::time_cache::"
 MC = r"^libp2p_gossipsub::mcache::MessageCache::"
 SELFTEST = [
